@@ -499,6 +499,13 @@ class Program:
             r = self.resolve_expr(module, expr)
             if r is not None:
                 return self._fold_resolved(r, _depth)
+            if expr.attr == "size":
+                try:
+                    base = f(expr.value)
+                except NotConst:
+                    base = None
+                if isinstance(base, StructConst):
+                    return base.size
             raise NotConst(ast.unparse(expr))
         if isinstance(expr, ast.Tuple):
             return tuple(self._fold_elts(module, expr.elts, env, _depth))
@@ -677,6 +684,8 @@ class Program:
                 import struct
 
                 return struct.calcsize(args()[0])
+            if name == "struct.Struct":
+                return StructConst(args()[0])
             raise NotConst(f"call {name}")
         raise NotConst("call")
 
@@ -685,6 +694,19 @@ class Program:
 class RegexConst:
     pattern: Any
     flags: Any = 0
+
+
+@dataclass(frozen=True)
+class StructConst:
+    """struct.Struct(fmt) object bound to a constant name."""
+
+    fmt: Any
+
+    @property
+    def size(self):
+        import struct
+
+        return struct.calcsize(self.fmt)
 
 
 SAFE_METHODS = {
@@ -939,3 +961,77 @@ def enclosing_conditions_expanded(node, fn):
         child = n
         n = getattr(n, "_parent", None)
     return list(reversed(out))
+
+
+def dict_bindings(fn, expr):
+    """Abstractly evaluate how a dict value is built inside `fn`: returns (bases, bindings, copied) where bases are the
+    expressions whose items are copied in, bindings maps constant string keys to value expressions, and `copied` tells
+    whether the dict is a fresh object (copy / dict(...) / display) rather than an alias of a base.
+    Understands  X.copy(), dict(X), dict(X, k=v), {**X, 'k': v}, {...}, d.update({...}), d.update(k=v), d['k'] = v."""
+    bases, bindings = [], {}
+    copied = False
+    name = None
+
+    def absorb(e):
+        nonlocal copied
+        if isinstance(e, ast.Dict):
+            copied = True
+            for k, v in zip(e.keys, e.values):
+                if k is None:
+                    bases.append(v)
+                elif isinstance(k, ast.Constant):
+                    bindings[k.value] = v
+            return True
+        if isinstance(e, ast.Call):
+            cn = call_name(e)
+            if cn == "dict":
+                copied = True
+                for a in e.args:
+                    if isinstance(a, ast.Dict):
+                        absorb(a)
+                    else:
+                        bases.append(a)
+                for k in e.keywords:
+                    if k.arg is None:
+                        bases.append(k.value)
+                    else:
+                        bindings[k.arg] = k.value
+                return True
+            if isinstance(e.func, ast.Attribute) and e.func.attr == "copy" and not e.args:
+                copied = True
+                bases.append(e.func.value)
+                return True
+            if cn in ("copy.copy", "copy.deepcopy") and e.args:
+                copied = True
+                bases.append(e.args[0])
+                return True
+        return False
+
+    if isinstance(expr, ast.Name):
+        name = expr.id
+        defs = [st for st in walk_no_nested(fn) if isinstance(st, ast.Assign) and any(isinstance(t, ast.Name) and t.id == name for t in st.targets)]
+        for d in defs:
+            if not absorb(d.value):
+                bases.append(d.value)
+        for n in walk_no_nested(fn):
+            if isinstance(n, ast.Call) and isinstance(n.func, ast.Attribute) and n.func.attr == "update" and isinstance(n.func.value, ast.Name) and n.func.value.id == name:
+                for a in n.args:
+                    if isinstance(a, ast.Dict):
+                        for k, v in zip(a.keys, a.values):
+                            if k is None:
+                                bases.append(v)
+                            elif isinstance(k, ast.Constant):
+                                bindings[k.value] = v
+                    else:
+                        bases.append(a)
+                for k in n.keywords:
+                    if k.arg is not None:
+                        bindings[k.arg] = k.value
+            if isinstance(n, ast.Subscript) and isinstance(n.ctx, ast.Store) and isinstance(n.value, ast.Name) and n.value.id == name and isinstance(n.slice, ast.Constant):
+                par = getattr(n, "_parent", None)
+                if isinstance(par, ast.Assign):
+                    bindings[n.slice.value] = par.value
+    else:
+        if not absorb(expr):
+            bases.append(expr)
+    return bases, bindings, copied
